@@ -1225,21 +1225,22 @@ def parse_response_start_line(line: str) -> ResponseStartLine:
 # RFCs for multipart/form-data) before making this change.
 
 
+# One parameter: everything up to the next semicolon that is not inside a
+# quoted string.  Inside a quoted string a backslash escapes the next
+# character, so a value ending in an escaped backslash still ends at its
+# closing quote.  The alternatives start with distinct characters, so
+# matching is linear.
+_PARAM_RE = re.compile(r'(?:[^;"]+|"(?:[^"\\]+|\\.|\\$)*(?:"|$))*', re.DOTALL)
+
+
 def _parseparam(s: str) -> Generator[str]:
     start = 0
     while s.find(";", start) == start:
         start += 1
-        end = s.find(";", start)
-        ind, diff = start, 0
-        while end > 0:
-            diff += s.count('"', ind, end) - s.count('\\"', ind, end)
-            if diff % 2 == 0:
-                break
-            end, ind = ind, s.find(";", end + 1)
-        if end < 0:
-            end = len(s)
-        f = s[start:end]
-        yield f.strip()
+        match = _PARAM_RE.match(s, start)
+        assert match is not None
+        end = match.end()
+        yield s[start:end].strip()
         start = end
 
 
